@@ -66,3 +66,29 @@ Proof.
   unfold hasher_hash. cbn [new_imm_gen new_hasher h_cache cache_get wit_cells nth_error length].
   destruct i; reflexivity.
 Qed.
+
+(** *** results are values
+    The answers of the model are values: what a caller holds after a history is
+    what was answered.  A hasher that returns a view of ONE scratch buffer it
+    owns (seeded mutation C02-r6m1) answers every request correctly at the
+    moment of the call, but every successful answer the caller still holds
+    shows the LAST successful answer. *)
+Definition end_view_scratch (rs : list (res bytes)) : list (res bytes) :=
+  let last := fold_left (fun acc r => match r with Ok h => Some h | _ => acc end) rs None in
+  map (fun r => match r, last with Ok _, Some h => Ok h | _, _ => r end) rs.
+
+Definition wit_two_cells : list node := [mknode false 0 0 [true] [1%nat]; mknode false 0 0 [false] []].
+
+Theorem scratch_buffer_refuted :
+  let answers := hasher_run sha256 false wit_two_cells new_hasher [OpHash 0; OpHash 1] in
+  answers = map (fresh_op sha256 wit_two_cells) [OpHash 0; OpHash 1] /\
+  nth_error (end_view_scratch answers) 0 = nth_error answers 1 /\
+  end_view_scratch answers <> answers.
+Proof.
+  cbn zeta.
+  assert (A : nth_error (end_view_scratch (hasher_run sha256 false wit_two_cells new_hasher [OpHash 0; OpHash 1])) 0 =
+              nth_error (hasher_run sha256 false wit_two_cells new_hasher [OpHash 0; OpHash 1]) 1)
+    by (vm_compute; reflexivity).
+  split; [vm_compute; reflexivity|]. split; [exact A|].
+  intros E. rewrite E in A. vm_compute in A. discriminate A.
+Qed.
